@@ -11,6 +11,12 @@ PUT/POST without body, nothing otherwise.  A method that is not an RFC 9110 toke
 a byte outside %x21-7E, must be refused (ValueError / failed Deferred) with zero bytes written, at
 construction and — after mutating the attribute — at writeTo.
 
+Also generated (same oracle): the Deferred returned by startProducing is unfired / already .called with its
+chain waiting on another Deferred / fired and pause()d when handed over (pieces are still written afterwards,
+the request must not be finished before the chain runs); the transport pauses the producer from inside its
+own write(); the producer writes from inside resumeProducing(); one caller-owned Headers object serves two
+requests; 2-8 KB targets, 60+ headers, 1..200-byte methods.
+
 Guards: header names compare case-insensitively and order is free; values compare after trimming
 OWS and, for values given with CR/LF (which Headers sanitises), after collapsing whitespace — the
 requirement there is "no extra lines"; the generator only produces RFC-valid field values (VCHAR,
@@ -35,7 +41,8 @@ ASSUMPTIONS = ["trusted base: h11 0.16 (server role) and the lenient request rea
 SHARDS = {"quick": 4, "thorough": 16}
 FLOORS = {"valid_requests_parsed": 2000, "h11_parsed": 2000, "bodies_content_length": 300, "bodies_chunked": 300,
           "async_bodies": 200, "pauses": 100, "invalid_refused_at_construction": 300, "invalid_refused_at_writeTo": 300,
-          "headers_compared": 3000, "crlf_values_checked": 100}
+          "headers_compared": 3000, "crlf_values_checked": 100, "deferred_kind_called-waiting": 150, "deferred_kind_fired-paused": 150,
+          "deferred_kind_unfired": 150, "reentrant_pauses": 300, "writes_from_resumeProducing": 100, "reused_headers_requests": 200, "edge_cases": 100}
 READY = True
 
 TCHAR = b"!#$%&'*+-.^_`|~0123456789ABCDEFGHIJKLMNOPQRSTUVWXYZabcdefghijklmnopqrstuvwxyz"
@@ -158,6 +165,21 @@ def gen_case(rng):
     case["length"] = 0 if body == "none" else n
     case["pieces"] = [] if body == "none" else gen_pieces(rng, n)
     case["pause_at"] = sorted(rng.sample(range(len(case["pieces"]) + 1), min(len(case["pieces"]) + 1, rng.choice([0, 0, 1, 2])))) if "async" in body else []
+    # how the Deferred returned by startProducing looks when it is handed over
+    case["dkind"] = "plain" if body == "none" or rng.random() < 0.6 else rng.choice(["called-waiting", "fired-paused", "unfired"])
+    # the transport pauses the producer from inside its own write() (buffer full) at these write() call numbers
+    case["reentrant_pause"] = sorted(rng.sample(range(1, 25), rng.choice([1, 2]))) if body != "none" and rng.random() < 0.25 else []
+    case["write_in_resume"] = "async" in body and rng.random() < 0.3
+    case["reuse_headers"] = valid_m and valid_t and rng.random() < 0.1
+    if valid_m and valid_t and rng.random() < 0.04:
+        e = rng.randrange(3)
+        if e == 0:
+            case["target"] = b"/" + bytes(rng.randint(0x21, 0x7E) for _ in range(rng.choice([2000, 8000])))
+        elif e == 1:
+            case["headers"] = case["headers"] + [(b"X-H%d" % i, b"v%d" % i) for i in range(60)]
+        else:
+            case["method"] = bytes(rng.choice(TCHAR) for _ in range(rng.choice([1, 40, 200])))
+        case["edge"] = ["long-target", "many-headers", "method-length"][e]
     return case
 
 
@@ -328,22 +350,55 @@ def make_producer(case, data):
             self.pause_calls = self.resume_calls = 0
             self.sync = case["body"].endswith("sync") and not case["body"].endswith("async")
             self.consumer = None
-            self.done = None
-
-        def _pieces(self):
+            self.ps = []
             pos = 0
             for k in case["pieces"]:
-                yield data[pos:pos + k]
+                self.ps.append(data[pos:pos + k])
                 pos += k
+            self.i = 0
+            self.write_errors = []
+            self.writes_in_resume = 0
+            self._release = None
+
+        def write_next(self):
+            if self.i < len(self.ps):
+                p = self.ps[self.i]
+                self.i += 1
+                try:
+                    self.consumer.write(p)
+                except Exception as e:
+                    self.write_errors.append(type(e).__name__)
 
         def startProducing(self, consumer):
             self.consumer = consumer
             if self.sync:
-                for p in self._pieces():
-                    consumer.write(p)
-                return succeed(None)
-            self.done = Deferred()
-            return self.done
+                while self.i < len(self.ps):
+                    self.write_next()
+            kind = case.get("dkind", "plain")
+            if kind == "plain":
+                if self.sync:
+                    self._release = lambda: None
+                    return succeed(None)
+                kind = "unfired"
+            if kind == "unfired":
+                d = Deferred()
+                self._release = lambda: d.callback(None)
+                return d
+            if kind == "called-waiting":  # .called is True, but the chain waits on an unfired Deferred
+                inner = Deferred()
+                d = succeed(None)
+                d.addCallback(lambda _: inner)
+                self._release = lambda: inner.callback(None)
+                return d
+            d = succeed(None)  # fired, then paused
+            d.pause()
+            self._release = d.unpause
+            return d
+
+        def release(self):
+            r, self._release = self._release, None
+            if r is not None:
+                r()
 
         def pauseProducing(self):
             self.paused = True
@@ -352,6 +407,9 @@ def make_producer(case, data):
         def resumeProducing(self):
             self.paused = False
             self.resume_calls += 1
+            if case.get("write_in_resume") and not self.sync and not self.stopped and self.i < len(self.ps):
+                self.writes_in_resume += 1
+                self.write_next()  # re-entrant: write() from inside resumeProducing()
 
         def stopProducing(self):
             self.stopped = True
@@ -359,17 +417,37 @@ def make_producer(case, data):
     return Producer()
 
 
+def make_transport(case):
+    from vf.engines.netsim import SimTransport
+
+    class ReentrantPauseTransport(SimTransport):
+        """Pauses a registered streaming producer from inside write() — what a TCP transport does when its buffer fills."""
+
+        nwrites = 0
+        reentrant_pauses = 0
+
+        def write(self, data):
+            SimTransport.write(self, data)
+            self.nwrites += 1
+            if self.nwrites in self.pause_on and self.producer is not None and self.streaming and not self.producer_paused:
+                self.reentrant_pauses += 1
+                self.producer_paused = True
+                self.producer.pauseProducing()
+
+    t = ReentrantPauseTransport()
+    t.pause_on = set(case.get("reentrant_pause") or ())
+    return t
+
+
 def execute(ctx, case):
     from twisted.web._newclient import Request
     from twisted.web.http_headers import Headers
-    from vf.engines.netsim import SimTransport
-
     data = body_bytes(case["body_seed"], case["length"])
     hdrs = Headers()
     for n, v in case["headers"]:
         hdrs.addRawHeader(n, v)
     valid = is_token(case["method"]) and is_target(case["target"])
-    t = SimTransport()
+    t = make_transport(case)
     out = {"constructed": True, "error": None, "fired": None, "written": b"", "data": data}
     prod = None if case["body"] == "none" else make_producer(case, data)
     if not valid and not case["mutate"]:
@@ -390,7 +468,11 @@ def execute(ctx, case):
         req.method = case["method"]
         req.uri = case["target"]
     else:
-        req = Request(case["method"], case["target"], hdrs, prod, persistent=case["persistent"])
+        try:
+            req = Request(case["method"], case["target"], hdrs, prod, persistent=case["persistent"])
+        except Exception as e:
+            out["error"] = "%s at construction: %s" % (type(e).__name__, str(e)[:80])
+            return out
     result = []
     try:
         d = req.writeTo(t)
@@ -399,20 +481,31 @@ def execute(ctx, case):
         out["error"] = type(e).__name__
         out["written"] = bytes(t.written)
         return out
-    if prod is not None and not prod.sync and not result:
+    if prod is not None and not result:
         pauses = set(case["pause_at"])
-        for i, piece in enumerate(prod._pieces()):
-            if i in pauses and t.producer is not None:
+        steps = 0
+        while not prod.sync and prod.i < len(prod.ps) and not prod.stopped and steps < 2000:
+            steps += 1
+            if prod.i in pauses and t.producer is not None and not prod.paused:
+                pauses.discard(prod.i)
                 t.sim_pause_producer()
                 ctx.count("pauses")
                 if not prod.paused:
                     out["pause_not_forwarded"] = True
-                t.sim_resume_producer()
-            if prod.stopped:
-                break
-            prod.consumer.write(piece)
+            if prod.paused:
+                if not t.sim_resume_producer():
+                    break
+                continue  # (a write made from inside resumeProducing may have been paused again)
+            prod.write_next()
+        if prod.paused and t.producer is not None:
+            t.sim_resume_producer()
+        out["written_before_release"] = len(t.written)
         if not prod.stopped:
-            prod.done.callback(None)
+            prod.release()
+    if prod is not None:
+        out["write_errors"] = prod.write_errors
+        ctx.count("reentrant_pauses", t.reentrant_pauses)
+        ctx.count("writes_from_resumeProducing", prod.writes_in_resume)
     from twisted.python.failure import Failure
 
     if result:
@@ -421,6 +514,12 @@ def execute(ctx, case):
             out["failure_text"] = result[0].getErrorMessage()[:200]
     out["written"] = bytes(t.written)
     out["producer_left_registered"] = t.producer is not None
+    if valid and case.get("reuse_headers"):
+        # the caller-owned Headers object serves a second request: it must still describe the same header set
+        t2 = make_transport({})
+        r2 = []
+        Request(case["method"], case["target"], hdrs, None, persistent=case["persistent"]).writeTo(t2).addBoth(r2.append)
+        out["second"] = {"constructed": True, "error": None, "fired": "ok" if r2 == [None] else repr(r2)[:80], "written": bytes(t2.written), "data": b""}
     return out
 
 
@@ -430,7 +529,9 @@ def check(ctx, case, out):
     wit = {"case": {k: v for k, v in case.items() if k != "pieces"}, "pieces_head": case["pieces"][:20], "n_pieces": len(case["pieces"]),
            "replay": {"method": l1(case["method"]), "target": l1(case["target"]), "headers": [[l1(n), l1(v)] for n, v in case["headers"]],
                       "body": case["body"], "length": case["length"], "pieces": case["pieces"], "pause_at": case["pause_at"],
-                      "persistent": case["persistent"], "mutate": case["mutate"], "body_seed": case["body_seed"]},
+                      "persistent": case["persistent"], "mutate": case["mutate"], "body_seed": case["body_seed"],
+                      "dkind": case.get("dkind", "plain"), "reentrant_pause": case.get("reentrant_pause", []),
+                      "write_in_resume": case.get("write_in_resume", False), "reuse_headers": case.get("reuse_headers", False)},
            "written_head": out["written"][:400], "written_length": len(out["written"]), "fired": out["fired"], "error": out["error"]}
 
     def bad(key, what, **kw):
@@ -450,6 +551,9 @@ def check(ctx, case, out):
         return
     if out["error"] is not None:
         return bad("valid-request-refused", "writeTo/constructor raised for a valid request")
+    if out.get("write_errors"):
+        return bad("producer-write-refused", "a write() of a well-behaved body producer (before its Deferred's chain had run) raised %s" % out["write_errors"][0],
+                   dkind=case.get("dkind"))
     if out["fired"] != "ok":
         return bad("writeto-deferred-not-ok", "the writeTo Deferred did not fire with success for a well-behaved body", failure_text=out.get("failure_text"))
     raw = out["written"]
@@ -498,6 +602,13 @@ def check(ctx, case, out):
         ctx.count("bodies_chunked")
     if "async" in case["body"]:
         ctx.count("async_bodies")
+    if case.get("dkind", "plain") != "plain":
+        ctx.count("deferred_kind_" + case["dkind"])
+    if case.get("edge"):
+        ctx.count("edge_cases")
+    if out.get("second") is not None:
+        ctx.count("reused_headers_requests")
+        check(ctx, dict(case, body="none", length=0, pieces=[], pause_at=[], reuse_headers=False, dkind="plain", edge=None), out["second"])
     ctx.count("body_bytes_compared", len(exp_body))
     if out.get("pause_not_forwarded"):
         ctx.count("pause_not_forwarded")
